@@ -6,10 +6,11 @@ R3 nullable closest pair / infinite sentinel.
 import ast
 
 from sa import callgraph, typestate
-from sa.astutil import (anorm, call_name, calls_in, dotted, norm, walk_no_nested, last_attr,
+from sa.astutil import (func_params, anorm, call_name, calls_in, dotted, norm, walk_no_nested, last_attr,
                         names_in, fact_texts, facts_at, enclosing_loops, is_inf, try_fold,
                         guards_of, flatten_and)
 from sa.loader import AnalysisError
+from sa.canon import canon
 from sa.tables import Cfg, module_constants
 from checks.c02 import make_world
 from checks import common
@@ -187,17 +188,36 @@ def run(ctx):
     # inner gates of the pairwise kernels
     emod = prog.mod('energy')
     hbi = emod.func('hydrogen_bond_interaction')
-    gate = [n for n in walk_no_nested(hbi) if isinstance(n, ast.If)
-            and norm(n.test).replace(' ', '') in ('dist>=cutoff[1]', 'dist>cutoff[1]')
-            and len(n.body) == 1 and isinstance(n.body[0], ast.Return)
-            and norm(n.body[0].value) == 'None']
+    can = canon(hbi)
+    gate = []
+    for n in walk_no_nested(hbi):
+        if isinstance(n, ast.If) and isinstance(n.test, ast.Compare) and len(n.test.ops) == 1 \
+                and isinstance(n.test.ops[0], (ast.Gt, ast.GtE)) \
+                and len(n.body) == 1 and isinstance(n.body[0], ast.Return) \
+                and (n.body[0].value is None or norm(n.body[0].value) == 'None'):
+            left, right = can.text(n.test.left), can.text(n.test.comparators[0])
+            if left.startswith('get_smallest_distance(') and left.endswith(')[1]') \
+                    and '.get_hydrogen_bond_parameters(' in right and right.endswith(')[1][1]'):
+                gate.append(n)
     ctx.ob('C05.R1', 'kernel:hydrogen-bond-outer-cutoff', len(gate) == 1,
            'hydrogen_bond_interaction returns None when the closest atoms are beyond the outer '
            'cut-off of the pair', emod, gate[0] if gate else hbi)
     ccp = emod.func('check_coulomb_pair')
-    far = [n for n in walk_no_nested(ccp) if isinstance(n, ast.If)
-           and norm(n.test).replace(' ', '') == 'dist>parameters.coulomb_cutoff2'
-           and norm(n.body[0]) == 'do_coulomb = False']
+    cparams = func_params(ccp)
+    can = canon(ccp)
+    far = []
+    for n in walk_no_nested(ccp):
+        if isinstance(n, ast.If) and isinstance(n.test, ast.Compare) and len(n.test.ops) == 1 \
+                and isinstance(n.test.ops[0], (ast.Gt, ast.GtE)) \
+                and can.text(n.test.left) == cparams[3] \
+                and can.text(n.test.comparators[0]) == cparams[0] + '.coulomb_cutoff2' \
+                and len(n.body) == 1 and isinstance(n.body[0], ast.Assign) \
+                and isinstance(n.body[0].value, ast.Constant) and n.body[0].value.value is False:
+            # the flag assigned here is the one returned
+            flag = norm(n.body[0].targets[0])
+            if any(isinstance(r, ast.Return) and r.value is not None and norm(r.value) == flag
+                   for r in walk_no_nested(ccp)):
+                far.append(n)
     ctx.ob('C05.R1', 'kernel:coulomb-outer-cutoff', len(far) == 1,
            'check_coulomb_pair rejects pairs beyond coulomb_cutoff2', emod, far[0] if far else ccp)
 
@@ -353,16 +373,20 @@ def _lemma_same_lists(prog, cg, fid, node):
     calls = [c for c in calls_in(hbi, nested=False) if last_attr(c) == 'check_exceptions']
     if len(calls) != 1:
         return False, 'check_exceptions is not called once from hydrogen_bond_interaction'
-    facts = fact_texts(calls[0], hbi)
-    neg = {t for t, p in facts if not p}
-    guarded = {'closest_atom1 is None', 'closest_atom2 is None'} <= neg
-    lists = {norm(s.targets[0]): norm(s.value) for s in walk_no_nested(hbi) if isinstance(s, ast.Assign)}
-    same = lists.get('atoms1') == 'group1.get_interaction_atoms(group2)' and \
-        lists.get('atoms2') == 'group2.get_interaction_atoms(group1)'
+    can = canon(hbi)
+    hp = func_params(hbi)
+    lists = ['%s.get_interaction_atoms(%s)' % (hp[0], hp[1]), '%s.get_interaction_atoms(%s)' % (hp[1], hp[0])]
+    gsd_call = 'get_smallest_distance(%s, %s)' % tuple(lists)
+    neg = {can.text(e) for e, p in facts_at(calls[0], hbi) if not p}
+    guarded = {gsd_call + '[0] is None', gsd_call + '[2] is None'} <= neg
+    same = [can.text(a) for a in calls[0].args][:2] == hp[:2]
     fn = prog.mod('energy').func('check_coo_coo_exception')
-    own = {norm(s.targets[0]): norm(s.value) for s in walk_no_nested(fn) if isinstance(s, ast.Assign)}
-    same = same and 'group1.get_interaction_atoms(group2)' in own.values() and \
-        'group2.get_interaction_atoms(group1)' in own.values()
+    fp = func_params(fn)
+    can2 = canon(fn)
+    own_calls = [can2.text(c) for c in calls_in(fn, nested=False)
+                 if (call_name(c) or '').split('.')[-1] == 'get_smallest_distance']
+    same = same and own_calls == ['get_smallest_distance(%s.get_interaction_atoms(%s), '
+                                  '%s.get_interaction_atoms(%s))' % (fp[0], fp[1], fp[1], fp[0])]
     other = [c for c in cg.callers_of(('energy', 'check_exceptions'))
              if not callgraph.versionA_exclude(c)]
     via_version = set(other) <= {('version', 'Version.check_exceptions'),
